@@ -15,6 +15,7 @@ import SkNet.Lemmas.Bipartite
 import SkNet.Lemmas.Reach
 import SkNet.Lemmas.GetCycles
 import SkNet.Lemmas.Dedup
+import SkNet.Lemmas.CyclesFuel
 
 namespace SkNet.C12
 open SkNet SkNet.Connectivity SkNet.Cycles
@@ -465,6 +466,40 @@ theorem getCycles_distinct (fuel : Nat) (nCC : Bool → Nat) (labels : Bool → 
           simp only [Bool.false_eq_true, ↓reduceIte]
           intro hsame
           exact hkey (by simpa [cycleKey] using sortNat_eq_of_sameNodes (hgood a ha).1 (hgood b hb).1 hsame)
+
+/-- `getCycles_terminates`: the fuel `cyclesFuel m` that `getCycles` hands to the traversal always suffices (the
+    stacked simple paths weigh `B^(n - length)`, a pop trades one path for fewer than `B` longer ones): `get_cycles`
+    never answers "out of fuel", so `getCycles_sound` / `getCycles_distinct` speak about every run. -/
+theorem getCycles_terminates (nCC : Bool → Nat) (labels : Bool → List Nat) (m : Mat)
+    (directed : Option Bool) (hc : m.Canon) (hsq : m.nRow = m.nCol)
+    (hlen : ∀ d, (labels d).length = m.nRow) :
+    getCycles nCC labels m directed ≠ .ok none := by
+  have hwf := Canon.wf hc hsq
+  unfold getCycles getCyclesWith
+  cases hd : resolveDirected m directed with
+  | error e => simp
+  | ok d =>
+    simp only
+    split
+    · simp
+    · split
+      · simp
+      · have hstarts : ∀ s ∈ (if d = true then (npUnique (labels d)).filter fun v => (labels d).count v > 1
+            else npUnique (labels d)).map (firstOfLabel (labels d)), s < m.nRow := by
+          intro s hs
+          obtain ⟨l, hl, rfl⟩ := List.mem_map.mp hs
+          have hl' : l ∈ labels d := by
+            split at hl
+            · exact mem_npUnique.mp (List.mem_filter.mp hl).1
+            · exact mem_npUnique.mp hl
+          rw [← hlen d]
+          exact List.idxOf_lt_length_iff.mpr hl'
+        have := cyclesFromStarts_terminates hwf _ (row_length_le_maxOf m) d _ hstarts
+          ((selfLoops m).map fun v => [v])
+        unfold cyclesFuel
+        split
+        · rename_i hn; exact absurd hn this
+        · simp
 
 /-- the directed square with a chord 1 → 3 (the repository's own test): two cycles, both genuine -/
 def chordSquare : Mat :=
